@@ -1,16 +1,61 @@
 #!/venv/bin/python
-"""Prints the numbers of DESIGN.md 0.3 from evidence/*.json (what each quick check explored)."""
+"""Regenerates the table of DESIGN.md 0.3 (between the markers <!-- T03:begin --> and <!-- T03:end -->) from evidence/*.json."""
 import json
 import os
+import re
 
 VERIF = os.path.dirname(os.path.dirname(os.path.abspath(__file__)))
-for i in range(1, 21):
-    p = os.path.join(VERIF, 'evidence', f'C{i:02d}.json')
-    if not os.path.exists(p):
-        continue
-    d = json.load(open(p))
-    c = d['coverage']
-    hs = sorted({x['harness'] for x in c['per_configuration']})
-    ex = c.get('evaluations') or c.get('transitions')
-    print(f"| C{i:02d} | {', '.join(hs)} | {ex} executions, {c['configurations']} cfgs, {c['distinct_outcomes']} outcomes, "
-          f"{c['traces_validated_against_impl']} re-validated | {d['wall_s']:.0f} s | exhaustive={c['exhaustive']} |")
+DESC = {
+    'C01': 'fifo_env (environment resolves the futures in every order; slow-source configurations with timer deviations; one d=2 core), parmap_pool (real ThreadPoolExecutor, gated calls) + real-process twin (executor=process, 54 settings)',
+    'C02': 'answers (single / sequential / ensemble / switch / batching / stream / preprocess / saturated), ids (model id allocator), async_answers (AsyncServer), proc_answers (process servlets behind simproc)',
+    'C03': 'pipelines (all programs <= 3 over 35 operator instances x 8 inputs incl. None and opaque elements x 3 modes), incremental, threaded_ops (slow sources)',
+    'C04': 'faults (fault site x failing subset x fail_fast x batching), pfaults (process servlets)',
+    'C05': 'buffer, parmap (incl. the thread/loop hybrids), async_adapters (SyncIter / AsyncBuffer / AsyncIter), fifo_stop + real-process twin (early stop / failure with executor=process)',
+    'C06': 'overshoot, deadlines (incl. slow-worker configurations), deadline_races (timers=all), async_overshoot; backlog invariant at every point',
+    'C07': 'timeout_race (timers=all; also saturated), stream_drop, async_abandon (AsyncServer)',
+    'C08': 'fifo_env, parmap_pool (incl. a second round after an early stop), buffer; invariants at every point; the maxima reach the bounds',
+    'C09': 'worker (batching, competing workers, in-worker pool, end marker after an environment-chosen pause), collector_full',
+    'C10': 'tee (2-3 forks, window 2-3, lengths 0/1/3/5, failure positions)',
+    'C11': 'startup (incl. 3 workers), cycles (incl. abandoned stream closed after exit, batching worker with requests in flight), acycles (AsyncServer), pstartup, pcycles (simproc; two competing workers per stage)',
+    'C12': 'thread, process (simproc; kill at every child point; terminate(); refused restart) + 5 real twins',
+    'C13': 'histories (BFS on real processes: list / MemoryBlock / managed() value; 12 operations), server_races (real Server object under the thread scheduler)',
+    'C14': 'sequences on real processes (depth 2-3 x issuer vectors; 32 list ops, 21 dict ops, ...), scenarios (custom authkey, managed() in a constructor)',
+    'C15': 'hops (9 classes x 3 depths x <= 3 hops x modes x 7 nestings) + 9 real-process cases',
+    'C16': 'afifo (every duration vector, n <= 4, both async variants), aserver, hybrids, opaque (adapters carry opaque elements)',
+    'C17': 'iq, iq_eager (consumers racing renew), iq_seq (every legal op sequence vs reference), iq_mp (simulated mp token queues), responsive, responsive2',
+    'C18': 'framing (all chunkings <= 3 x gaps), server (all duration vectors), client (schedex, ids, timeouts), pipe_histories (every history <= 7 ops on real FIFOs) + 798 FIFO payload sequences + 48 real-socket requests',
+    'C19': 'eager_batcher (every gap vector for 0-5 items; None items; custom end markers)',
+    'C20': 'logging (simproc: N x pipe capacity x ending; slow handler; 1500-record burst; silent child with timer deviations) + 3 real twins',
+}
+
+
+def table():
+    rows = ['| id | harnesses | explored by the quick tier | wall | exhaustive within bounds |', '|---|---|---|---|---|']
+    for i in range(1, 21):
+        pid = f'C{i:02d}'
+        p = os.path.join(VERIF, 'evidence', f'{pid}.json')
+        if not os.path.exists(p):
+            continue
+        d = json.load(open(p))
+        c = d['coverage']
+        ex = c.get('evaluations') or c.get('transitions')
+        rows.append(f"| {pid} | {DESC[pid]} | {ex} executions, {c['configurations']} configurations, {c['distinct_outcomes']} distinct outcomes, "
+                    f"{c['traces_validated_against_impl']} re-validated | {d['wall_s']:.0f} s | {'yes' if c['exhaustive'] else 'capped'} |")
+    return '\n'.join(rows)
+
+
+def main():
+    t = table()
+    p = os.path.join(VERIF, 'DESIGN.md')
+    s = open(p).read()
+    m = re.search(r'<!-- T03:begin -->.*?<!-- T03:end -->', s, re.S)
+    if m:
+        s = s[:m.start()] + '<!-- T03:begin -->\n' + t + '\n<!-- T03:end -->' + s[m.end():]
+        open(p, 'w').write(s)
+        print('DESIGN.md 0.3 table regenerated')
+    else:
+        print(t)
+
+
+if __name__ == '__main__':
+    main()
